@@ -6,7 +6,8 @@ without an output buffer of a few or many bytes), the terminal's replies to the 
 late - after the program has already set controls - or absent; consistent with the VT's initial state
 named on the `new` line), then control settings (valid, redundant, repeated, a labelled minority invalid),
 pens (palette colours with and without RGB8 refinements, often a small variation of the previous pen),
-text, pause/resume cycles, other holders taking and dropping references to the terminal, and an ending in
+text, pause/resume cycles (one in three with control settings, pen changes and text between pause and resume, or
+between pause and an ending without resume), other holders taking and dropping references to the terminal, and an ending in
 teardown and/or destruction.  Histories that contain a trigger of a finding already recorded for the
 unrepaired tree are placed after the others, so that the framework's cap on examined failing histories never
 hides a new failure behind known ones.
@@ -81,7 +82,12 @@ class Hist:
     def __init__(self, kind, buf):
         self.shape = rng.choice([0, 1, 2, 2, 3, 4, 5, 6])
         self.blink = 1 if (self.shape == 0 or self.shape % 2 == 1) else 0
-        self.lines = [f"new {kind}{f' buf={buf}' if buf else ''} blink={self.blink} shape={self.shape}"]
+        # the terminal's mode state at hand-over is a parameter of the history: one terminal in five is handed over
+        # with its cursor hidden (it says so in its reply to the start-up query for mode 25)
+        self.vis = 0 if rng.random() < 0.2 else 1
+        self.lines = [f"new {kind}{f' buf={buf}' if buf else ''} blink={self.blink} shape={self.shape}{'' if self.vis else ' vis=0'}"]
+        if not self.vis:
+            stat["handover:cursor-hidden"] += 1
         self.kind = kind
         self.last = {}          # control -> last value set
         self.trigger = set()
@@ -89,12 +95,14 @@ class Hist:
         self.prevpen = None
         self.extra = 0          # references taken by other holders
         self.owner = True
-        self.nosetup = kind != "term" and rng.random() < 0.3     # the program sets the modes itself, never through setup
+        # the program sets the modes itself, never through setup (nearly always so when the cursor was handed over hidden:
+        # setup hides the cursor, and the driver has no record of the hand-over state to go back to)
+        self.nosetup = kind != "term" and rng.random() < (0.3 if self.vis else 0.9)
         if self.nosetup:
             stat["toplevel:without-setup"] += 1
 
     def replies(self):
-        r = [f"reply mode 25 1", f"reply mode 12 {1 if self.blink else 2}", f"reply mode 69 {rng.choice([1, 1, 2, 0])}",
+        r = [f"reply mode 25 {1 if self.vis else 2}", f"reply mode 12 {1 if self.blink else 2}", f"reply mode 69 {rng.choice([1, 1, 2, 0])}",
              f"reply shape {self.shape}", f"reply sgr {rng.choice([0, 1])} {rng.choice([0, 1])}"]
         rng.shuffle(r)
         return r
@@ -119,10 +127,20 @@ class Hist:
         """Controls set straight after construction, before the terminal has answered the start-up queries."""
         for _ in range(rng.randint(1, 4)):
             c = rng.choice(["cursorshape", "cursorshape", "cursorblink", "cursorvis", "mouse", "altscreen"])
+            c = self.leave_hidden(c)
             v = rng.choice([1, 2, 3]) if c in ("cursorshape", "mouse") else rng.choice([0, 1])
             self.last[c] = v
             self.add(f"ctl {c} {v}")
             stat["ctl:before-replies"] += 1
+
+    def leave_hidden(self, c):
+        """On a terminal handed over with a hidden cursor the program nearly always leaves cursor visibility alone
+        (the rest is labelled: outside the contract)."""
+        if c == "cursorvis" and not self.vis:
+            if rng.random() < 0.9:
+                return "altscreen"
+            stat["contract:cursorvis-set-on-hidden-handover"] += 1
+        return c
 
     def ctl(self):
         r = rng.random()
@@ -136,6 +154,7 @@ class Hist:
             self.add(f"ctl xterm.cap_rgb8 {v}")
             return
         c = rng.choice(["altscreen", "cursorvis", "mouse", "mouse", "cursorblink", "cursorshape", "keypad_app"])
+        c = self.leave_hidden(c)
         if c in self.last and rng.random() < 0.25:
             v = self.last[c]; stat["ctl:redundant"] += 1
         elif rng.random() < 0.06:
@@ -167,16 +186,16 @@ class Hist:
         elif r < 0.80:
             self.add("pause")
             x = rng.random()
-            if x < 0.10:     # out of contract: something between pause and resume
-                if self.pending and x < 0.05:
-                    self.deliver(1)      # a reply while libtermkey is stopped waits in its buffer
-                else:
-                    self.ctl()
-                stat["contract:op-while-paused"] += 1
-            if x < 0.93:
+            if x < 0.35:     # the program goes on using the terminal between pause and resume
+                for _ in range(rng.choice([1, 1, 2, 3])):
+                    self.paused_op()
+                stat["paused:ops-before-resume-or-end"] += 1
+            if rng.random() < (0.75 if x < 0.35 else 0.93):
                 self.add("resume")
             else:
                 self.ended_paused = True
+                if x < 0.35:
+                    stat["paused:ops-then-end-without-resume"] += 1
         elif r < 0.84:
             self.add(f"setstr {rng.choice(['title_text', 'icon_text', 'icontitle_text', 'title_text', 'mouse', '#7'])} {hexs(rng.choice(['title here', 'x', 'a;b c']))}")
         elif r < 0.87:
@@ -200,8 +219,32 @@ class Hist:
         else:
             self.ctl()
 
+    def paused_op(self):
+        """A control setting, a pen change, text, a title or a reply of the terminal while the terminal is paused."""
+        r = rng.random()
+        if r < 0.5:
+            self.ctl()
+        elif r < 0.7:
+            p = pen(self.prevpen)
+            self.prevpen = p
+            self.add(f"{rng.choice(['setpen', 'setpen', 'chpen'])} {p}")
+            if rng.random() < 0.7:
+                self.add(f"print {rng.choice(TEXTS)}")
+        elif r < 0.8:
+            self.add(f"print {rng.choice(TEXTS)}")
+        elif r < 0.87:
+            self.add(f"setstr title_text {hexs('paused')}")
+        elif r < 0.93 and self.pending:
+            self.deliver(1)      # a reply while libtermkey is stopped waits in its buffer
+        elif r < 0.96:
+            self.add("flush")
+        else:
+            self.ctl()
+
     def tick(self):
         nosetup = self.nosetup or rng.random() < 0.15
+        if not nosetup and not self.vis:
+            stat["contract:setup-on-hidden-handover"] += 1
         if not nosetup and not getattr(self, "done_setup", False):
             self.done_setup = True
             self.trigger.add("keypad_shadow")
@@ -294,6 +337,12 @@ def exhaustive():
         for seq in itertools.product(early, repeat=n):
             clean.append(["new term blink=1 shape=1"] + list(seq) + ["unref"])
     families["cursor controls and late replies (<= 4 of 10)"] = sum(len(early) ** n for n in range(1, 5))
+    # a terminal handed over with its cursor hidden: it answers the start-up query accordingly, at any time
+    hidden = ["reply mode 25 2", "ctl altscreen 1", "ctl mouse 1", "ctl cursorblink 1", "setpen b=1", "pause", "resume", "teardown", "await 1", "reply mode 12 2"]
+    for n in range(1, 5):
+        for seq in itertools.product(hidden, repeat=n):
+            clean.append(["new term blink=0 shape=2 vis=0"] + list(seq) + ["unref"])
+    families["cursor hidden at hand-over (<= 4 of 10)"] = sum(len(hidden) ** n for n in range(1, 5))
     # a small output buffer
     buf = ["ctl altscreen 1", "ctl mouse 2", "ctl cursorvis 0", "setpen b=1,fg=200", "print 48656c6c6f", "pause", "resume", "teardown", "flush"]
     for size in (8, 64):
@@ -340,6 +389,10 @@ else:
         if ("buf=" in ls[0] or ls[0].startswith("new tickitb")) and "pause" in ls:
             score += 1
         if "termref" in ls:
+            score += 1
+        if any(l == "pause" and not n.startswith(("resume", "teardown", "unref", "termunref")) for l, n in zip(ls, ls[1:])):
+            score += 1        # the program goes on between pause and resume / the end
+        if "vis=0" in ls[0] and "reply mode 25 2" in ls:
             score += 1
         firstreply = next((i for i, l in enumerate(ls) if l.startswith("reply")), len(ls))
         if any(l.startswith("ctl cursor") for l in ls[1:firstreply]) and firstreply < len(ls):
